@@ -28,11 +28,22 @@ func associatedWithTypedObject(currEpoch uint64, metaCursor *bbolt.Cursor, idObj
 
 // checks if specified object is locked in the specified container.
 func objectLocked(currEpoch uint64, metaCursor *bbolt.Cursor, idObj oid.ID) bool {
-	locked, lockID := associatedWithTypedObject(currEpoch, metaCursor, idObj, object.TypeLock)
-	if !locked {
-		return false
+	// any live lock protects the object: an expired or removed one must not end the search
+	for lockID := range iterAttrVal(metaCursor, object.AttributeAssociatedObject, idObj[:]) {
+		var cur = metaCursor.Bucket().Cursor()
+
+		if !isObjectType(cur, lockID, object.TypeLock) {
+			continue
+		}
+		if currEpoch > 0 && isExpired(cur, lockID, currEpoch) {
+			continue
+		}
+		if inGarbage(cur, lockID) == statusAvailable {
+			return true
+		}
 	}
-	return inGarbage(metaCursor, lockID) == statusAvailable
+
+	return false
 }
 
 // IsLocked checks is the provided object is locked by any `LOCK`. Not found
